@@ -16,6 +16,13 @@ use crate::simfs::FsOp;
 pub struct FsFault;
 
 const REF_TICK_LIMIT: u64 = 100_000;
+/// Call-depth limit (hook H3b) for runs whose text is corrupted: a fault can
+/// manufacture a legitimately unbounded program (a bit flip that turns the
+/// base case of a recursive function into an unknown function: endless
+/// recursion). Such runs are `inconclusive`; the limit lets them end by a
+/// caught panic instead of a stack overflow that takes the worker down. Runs
+/// on intact text have no limit: there a stack overflow is a violation.
+const CORRUPTED_TEXT_DEPTH: u32 = 200;
 
 fn n_project_units(tier: &str) -> u64 {
     if tier == "thorough" {
@@ -58,6 +65,9 @@ fn judge(spec: &JobSpec, r: &JobResult, ref_ok: bool) -> (Option<(String, String
         Outcome::Hang { kind, site } => {
             if kind == "lexer" {
                 (Some((format!("hang(lexer)@{}", site), format!("parser loop: one Lexer exceeded its input-proportional budget of 4096*(len+64) operations in {}", site))), "violation")
+            } else if kind == "depth" {
+                // only ever armed for corrupted text
+                (None, "inconclusive")
             } else if !corrupts && ref_ok {
                 (Some(("hang(eval)".into(), format!("evaluation of intact text exceeded {} ticks although the fault-free run of the same project used < {}", spec.eval_fuel, REF_TICK_LIMIT))), "violation")
             } else {
@@ -88,6 +98,11 @@ impl<'a> UnitRun<'a> {
     fn case(&mut self, spec: &JobSpec, ref_ok: bool) -> Option<JobResult> {
         let idx = self.idx;
         self.idx += 1;
+        let mut spec = spec.clone();
+        if spec.faults.iter().any(|f| f.corrupts_text()) {
+            spec.depth_limit = CORRUPTED_TEXT_DEPTH;
+        }
+        let spec = &spec;
         let s2 = spec.clone();
         if !(self.progress)(idx, &move || json!({"job": s2.to_json()})) {
             self.res.bump("skipped_after_crash", 1);
@@ -362,6 +377,10 @@ impl Engine for FsFault {
     fn units(&self, ctx: &Ctx) -> u64 {
         n_project_units(&ctx.tier) + n_sweep_units(ctx)
     }
+    fn stack_bytes(&self) -> usize {
+        // generous, so that the depth limit above always fires first on corrupted text
+        64 << 20
+    }
     fn run_unit(&self, ctx: &Ctx, unit: u64, progress: Progress) -> UnitResult {
         let np = n_project_units(&ctx.tier);
         // interleave so that a time-boxed run sees both kinds
@@ -379,10 +398,18 @@ impl Engine for FsFault {
         // reference: same job without faults
         let mut base = spec.clone();
         base.faults.clear();
+        if spec.faults.iter().any(|f| f.corrupts_text()) {
+            // a minimised case may carry the corruption in the file itself
+            base.depth_limit = CORRUPTED_TEXT_DEPTH;
+        }
         let mut ref_ok = true;
         if !spec.faults.is_empty() {
             let r0 = run_job(&base);
             ref_ok = matches!(r0.outcome, Outcome::Ok(_) | Outcome::Err(_)) && r0.eval_ticks < REF_TICK_LIMIT;
+        }
+        let mut spec = spec;
+        if spec.faults.iter().any(|f| f.corrupts_text()) {
+            spec.depth_limit = CORRUPTED_TEXT_DEPTH;
         }
         let r = run_job(&spec);
         match judge(&spec, &r, ref_ok).0 {
